@@ -135,7 +135,7 @@ func H_C04_prune_repeat() {
 	for i := 0; i < nact; i++ {
 		progs = append(progs, symOps("act"+itoa(i), 3, alphabet))
 	}
-	pruneRepeat(progs, pruneL(9, 11))
+	pruneRepeat(progs, pruneL(9, 10))
 }
 
 // H_C04_prune_repeatFilter: one action that starts with a rejection-based draw (which may give
